@@ -92,8 +92,8 @@ def run(P, C, tier):
                 key = s["room_key"]
                 if key is None:
                     # the mutated clone of the room in validate_room_mutation's final check
-                    recv = field_path(s["args"][0])
-                    okk = f.endswith("validate_room_mutation") and recv == "room"
+                    recv = b.cpath(mir.strip(s["args"][0]))
+                    okk = f.endswith("validate_room_mutation") and recv == "‹Room›"
                     C.ob("R3", label, okk, s["loc"], "receiver %s is not a self.rooms.get(..) result" % recv)
                     continue
                 ineq = s["room_ineq"]
@@ -187,8 +187,8 @@ def run(P, C, tier):
                 atom, truth = mir.cond_atoms(term, vals)
                 if atom[0] != "call":
                     continue
-                p = field_path(atom[2][0]) if atom[2] else ""
-                if atom[1].endswith("Vec::is_empty") and p.endswith("insert_entity.edge_deletions") and truth is True:
+                p = b2.cpath(atom[2][0]) if atom[2] else ""
+                if atom[1].endswith("Vec::is_empty") and p == "‹InsertEntity›.edge_deletions" and truth is True:
                     has["edge_deletions"] = True
                 if atom[1].endswith("Option::is_some") and p.endswith("old_node") and truth is False:
                     has["old_node"] = True
@@ -270,64 +270,64 @@ def arm_of(body, bi):
 
 
 def flag_chain(P, b, s):
-    """can_admin_users: its refusing edge must set need_room_admin = true, the function returns that flag,
-    and the caller turns the flag into a room-admin requirement whose refusal is an Err"""
+    """can_admin_users: its refusing edge must raise the `room admin needed` flag, the function returns that flag,
+    and the caller turns the flag into a room-admin requirement whose refusal is an Err.  The flag is identified as the
+    bool variable returned in Ok(..) (callee) and as the bool variable raised on the true edge of the callee's result (caller)."""
     sws = rights.decision_switches(b, s["block"])
     if not sws:
         return False, "result unused"
-    ok = True
+    # the flag of the callee: the bool local wrapped in the Ok(..) return value
+    flags = set()
+    for bi in b.live_blocks():
+        for st in b.blocks[bi]["s"]:
+            if st["lhs"] == [0] and st["rv"]["r"] == "aggr" and st["rv"].get("variant") == "Ok":
+                t = b.def_term(bi, 0, st["rv"], 0)
+                for x in mir.subterms(t):
+                    if x[0] == "var" and len(x) > 2 and b.locals[x[2]] == "bool":
+                        flags.add(x[2])
+    ret = len(flags) == 1
+    fl = next(iter(flags)) if ret else None
+    ok = ret
     det = []
     for sb, tt, ft in sws:
         region = b.reachable(ft)
         sets = False
         for x in region:
             for st in b.blocks[x]["s"]:
-                if len(st["lhs"]) == 1 and b.names.get(st["lhs"][0]) == "need_room_admin" and st["rv"]["r"] == "use" and st["rv"]["o"].get("k", {}).get("v") is True:
+                if st["lhs"] == [fl] and st["rv"]["r"] == "use" and st["rv"]["o"].get("k", {}).get("v") is True:
                     sets = True
         # on the refusing edge the flag is set before any return
         first = b.blocks[ft]
-        direct = any(len(st["lhs"]) == 1 and b.names.get(st["lhs"][0]) == "need_room_admin" for st in first["s"])
+        direct = any(st["lhs"] == [fl] for st in first["s"])
         ok = ok and sets and direct
-        det.append("refusing edge bb%d->bb%d sets need_room_admin=true at once: %s" % (sb, ft, direct))
-    # the function returns Ok(need_room_admin)
-    ret = False
-    for bi in b.live_blocks():
-        for st in b.blocks[bi]["s"]:
-            if st["lhs"] == [0] and st["rv"]["r"] == "aggr" and st["rv"].get("variant") == "Ok":
-                t = b.def_term(bi, 0, st["rv"], 0)
-                if any(x[0] == "var" and x[1] == "need_room_admin" for x in mir.subterms(t)):
-                    ret = True
-    det.append("returns Ok(need_room_admin): %s" % ret)
+        det.append("refusing edge bb%d->bb%d raises the returned flag at once: %s" % (sb, ft, direct))
+    det.append("returns Ok(flag): %s" % ret)
     # caller: validate_room_mutation
     try:
         c = P.body("RoomAuthorisations::validate_room_mutation")
     except mir.MissingAnchor:
         return False, "caller missing"
-    chain = False
-    for bi, t in c.calls_to(r"validate_authorisation_mutation$"):
-        for l, n in c.names.items():
-            if n == "need_mut":
-                pass
-        # need_mut true edge sets need_room_admin = true
-        for sb in c.live_blocks():
-            tt_ = c.blocks[sb]["t"]
-            if tt_["k"] == "switch":
-                term = c.switch_term(sb, expand_vars=True)
-                if mir.has_call(term, r"validate_authorisation_mutation$") and term[0] != "discr":
-                    for tg, vals in rights.switch_edges(c, sb):
-                        atom, truth = mir.cond_atoms(term, vals)
-                        if truth is True:
-                            for st in c.blocks[tg]["s"]:
-                                if len(st["lhs"]) == 1 and c.names.get(st["lhs"][0]) == "need_room_admin":
-                                    chain = True
-    det.append("caller raises need_room_admin from the returned flag: %s" % chain)
+    cflags = set()
+    for sb in c.live_blocks():
+        tt_ = c.blocks[sb]["t"]
+        if tt_["k"] == "switch":
+            term = c.switch_term(sb, expand_vars=True)
+            if mir.has_call(term, r"validate_authorisation_mutation$") and term[0] != "discr":
+                for tg, vals in rights.switch_edges(c, sb):
+                    atom, truth = mir.cond_atoms(term, vals)
+                    if truth is True:
+                        for st in c.blocks[tg]["s"]:
+                            if len(st["lhs"]) == 1 and c.locals[st["lhs"][0]] == "bool" and st["lhs"][0] in c.names and st["rv"]["r"] == "use" and st["rv"]["o"].get("k", {}).get("v") is True:
+                                cflags.add(st["lhs"][0])
+    chain = len(cflags) == 1
+    det.append("caller raises its own flag from the returned one: %s" % chain)
     final = False
     for fs in rights.can_sites(P, c):
         if fs["kind"] == "is_admin":
             for sg, vals, term in c.guards(fs["block"]):
                 atom, truth = mir.cond_atoms(term, vals)
-                if atom[:2] == ("var", "need_room_admin") and truth is True:
+                if atom[0] == "var" and len(atom) > 2 and atom[2] in cflags and truth is True:
                     okf, _ = rights.check_refusal(c, fs["block"])
                     final = final or okf
-    det.append("need_room_admin && !is_admin -> Err in the caller: %s" % final)
+    det.append("flag && !is_admin -> Err in the caller: %s" % final)
     return ok and ret and chain and final, "; ".join(det)
